@@ -24,12 +24,34 @@ FULL = ("slice", ("const", None), ("const", None), ("const", None))
 FACT = {"do_interventions": "d", "shift_interventions": "s", "noise_interventions": "z"}
 
 
+EMPTY_DICTS = (("dict", ()), ("ext", "dict", (), ()), ("dictlit", ()), ("dict", (), ()))
+
+
+def strip_default_dict(t):
+    """`x or {}` / `{} if x is None else x` for an intervention dictionary is that dictionary (None = no interventions)"""
+    if not isinstance(t, tuple):
+        return t
+    if t and t[0] == "bool" and t[1] == "or" and len(t[2]) == 2 and t[2][0][0] == "param" and t[2][0][1] in FACT and is_empty_dict(t[2][1]):
+        return t[2][0]
+    if t and t[0] == "phi" and len(t) == 4:
+        c_, a_, b_ = t[1], t[2], t[3]
+        for x, y in ((a_, b_), (b_, a_)):
+            if is_empty_dict(x) and isinstance(y, tuple) and y[0] == "param" and y[1] in FACT and c_[0] == "cmp" and c_[1] in ("is", "is not") and y in (c_[2], c_[3]):
+                return y
+    return tuple(strip_default_dict(x) for x in t)
+
+
+def is_empty_dict(t):
+    return isinstance(t, tuple) and (t in EMPTY_DICTS or (len(t) >= 2 and t[0] in ("dict", "dictlit") and not t[1]) or t == ("ext", "dict", (), ()))
+
+
 class AnmCases:
     def __init__(self, val, i, X, n):
         self.val, self.i, self.X, self.n = val, i, X, n
         self.problems = []
 
     def cond(self, c):
+        c = strip_default_dict(c)
         if c[0] == "cmp" and c[1] in ("in", "not in") and c[2] == self.i and c[3][0] == "param" and c[3][1] in FACT:
             v = self.val[FACT[c[3][1]]]
             return v if c[1] == "in" else not v
@@ -123,7 +145,7 @@ def run(prog, rep, tier):
     i = ("elem", li["iter"])
     X = ("mu", lid, name)
     n = ("param", "n")
-    nxt = li["next"][name]
+    nxt = strip_default_dict(li["next"][name])          # `x or {}` for an intervention dictionary is that dictionary
     table, bad = {}, []
     for d, s, z in itertools.product([False, True], repeat=3):
         ev = AnmCases({"d": d, "s": s, "z": z}, i, X, n)
